@@ -366,3 +366,27 @@ M("C12", "read-pairs-empty-raises-again", [(HT, "    if os.path.getsize(filename
 M("C12", "matcher-python-radius-f4", [(HT, "        radius = np.atleast_1d(radius).astype('f8')\n\n        if ra.size != dec.size:\n            raise ValueError(\n                \"ra size (%d) != \" \"dec size (%d)\" % (ra.size, dec.size)\n            )\n\n        if radius.size != 1",
                                        "        radius = np.atleast_1d(radius).astype('f4').astype('f8')\n\n        if ra.size != dec.size:\n            raise ValueError(\n                \"ra size (%d) != \" \"dec size (%d)\" % (ra.size, dec.size)\n            )\n\n        if radius.size != 1")],
   "radius passes through float32: relative 6e-8 change moves the boundary by more than 1e-9 deg for radii above 0.02 deg")
+
+# ---- C13
+M("C13", "leafid-lt-maxid", [(HC, "            if ( leafid >= minid && leafid <= maxid) {", "            if ( leafid >= minid && leafid < maxid) {")],
+  "pairs whose second point lies in the triangle with the largest populated id are not counted")
+M("C13", "radbin-le-nbin", [(HC, "                            if (fbin >=0 && fbin < nbin) {", "                            if (fbin >=0 && fbin <= nbin) {")],
+  "a pair at exactly rmax is counted one past the end of the counts array (heap write)")
+M("C13", "cast-instead-of-floor-again", [(HC, "                            double fbin = floor( (logr-logrmin)/log_binsize );", "                            double fbin = (double)(long)( (logr-logrmin)/log_binsize );")],
+  "the original defect D22 (truncation toward zero)")
+M("C13", "intersect-inclusive-drops-partial-when-no-full", [(HC, "    if (inclusive) {\n        nfound = flist.length() + plist.length();", "    if (inclusive && flist.length() > 0) {\n        nfound = flist.length() + plist.length();"),
+                                                             (HC, "    if (inclusive) {\n        // ----------- Partial Nodes ----------", "    if (inclusive && flist.length() > 0) {\n        // ----------- Partial Nodes ----------")],
+  "small circles (no fully covered triangle) return an empty inclusive list")
+M("C13", "intersect-exclusive-includes-first-partial", [(HC, "    } else {\n        nfound = flist.length();\n    }\n\n    PyObject* idlist=PyArray_ZEROS(", "    } else {\n        nfound = flist.length() + (plist.length() > 0 && flist.length() > 8 ? 1 : 0);\n    }\n\n    PyObject* idlist=PyArray_ZEROS("),
+                                                         (HC, "    if (inclusive) {\n        // ----------- Partial Nodes ----------\n        for(size_t i = 0; i < plist.length(); i++)", "    if (inclusive || nfound > (npy_intp) flist.length()) {\n        // ----------- Partial Nodes ----------\n        for(size_t i = 0; i < plist.length() && id_index < nfound; i++)")],
+  "with more than eight full triangles the exclusive list also carries one partially covered triangle")
+M("C13", "bincount-per-point-scale-uses-first", [(HC, "            scale = *(double *) PyArray_GETPTR1((PyArrayObject *) scale_array, i1);\n            logscale = log10(scale);", "            scale = *(double *) PyArray_GETPTR1((PyArrayObject *) scale_array, i1 < 32 ? i1 : 0);\n            logscale = log10(scale);")],
+  "per-point scales beyond the 32nd point use the first point's scale")
+M("C13", "bincount-cap-always-degrees", [(HC, "        if (degrees) { \n            d = cos( maxangle*D2R );\n        } else {\n            d = cos( maxangle );\n        }", "        d = cos( maxangle*D2R );")],
+  "with a scale the search cap is taken in degrees although the angle is in radians: far too small")
+M("C13", "bincount-htmrev2-not-converted-again", [(HT, "            htmrev2 = np.atleast_1d(htmrev2).astype('i8')\n", "            pass\n")], "the original defect")
+M("C13", "idbyname-uint32-shift", [("esutil/htm/htm_src/SpatialIndex.cpp", "  uint64 out=0, i;\n  uint32 size = 0;", "  uint64 out=0;\n  uint32 size=0, i;")],
+  "ids at depth >= 15 lose their prefix bits (the seeded change)")
+M("C13", "bincount-maxid-from-given-ids-off", [(HT, "            if maxid is None:\n                maxid = htmid2.max()\n\n        if htmrev2 is None:", "            if maxid is None:\n                maxid = htmid2.max() - (1 if htmid2.size > 100 else 0)\n\n        if htmrev2 is None:")],
+  "precomputed ids without maxid: the top triangle is cut off for sets of more than 100 points")
+M("C13", "control-logscale-hoisted", [(HC, "    double log_binsize = (logrmax-logrmin)/nbin;\n    if (log_binsize < 0) {", "    double log_binsize = (logrmax-logrmin)/(double)nbin;\n    if (log_binsize < 0) {")], control=True)
